@@ -1,0 +1,7 @@
+//! Facade for the area VribQuery (C11/C12): the comparator and the sort of
+//! the RIB query API's `sort=<json pointers>` parameter. Re-exports only;
+//! see `units/rib_unit/http/verif_hooks_vribquery.rs`. Virtual RIBs are
+//! reached through a really spawned pipeline (`verif::manager`).
+pub use crate::units::rib_unit::verif_hooks_vribquery::{
+    cmp_json_values, sort_results,
+};
